@@ -77,7 +77,7 @@ func execMuxSeq(toks []string) string {
 			called = append(called, k)
 			if panicNext {
 				panicNext = false
-				scriptedPanic()
+				scriptedPanicOnly()
 			}
 		}
 	}
@@ -144,7 +144,10 @@ func execMuxSeq(toks []string) string {
 			}
 			called = nil
 			m := diam.NewMessage(uint32(c), flags, uint32(a), 1, 1, dict.Default)
-			if r := guard(func() { mux.ServeDIAM(nil, m) }); r != "" {
+			armed := panicNext
+			if r := guard(func() { mux.ServeDIAM(nil, m) }); r != "" || (armed && !panicNext) {
+				// (a nil panic value is invisible to recover(): the handler having taken the
+				// order is what says that it panicked)
 				if p[0] == "p" && len(called) == 1 {
 					outs = append(outs, fmt.Sprintf("h%d!", called[0]))
 				} else {
